@@ -136,23 +136,25 @@ fn spawn_thread(role: u64, h: Arc<SingletonHolder<Val>>) -> Th {
 
 fn run_op(h: &SingletonHolder<Val>, role: u64, op: &str, id: u64) -> (String, u64) {
     tr().ev(json!({"ev":"call","t":role,"op":op,"id":id}));
-    let r: (String, u64) = match op {
+    // a panic of the holder is data (C18 / C20), never a dead harness thread
+    let r: (String, u64) = std::panic::catch_unwind(std::panic::AssertUnwindSafe(|| match op {
         "set" => {
             h.set(Val { id });
-            ("unit".into(), id)
+            ("unit".to_string(), id)
         }
         "get" => match h.get() {
-            Some(v) => ("some".into(), v.id),
-            None => ("none".into(), 0),
+            Some(v) => ("some".to_string(), v.id),
+            None => ("none".to_string(), 0),
         },
         _ => {
             if h.is_set() {
-                ("true".into(), 0)
+                ("true".to_string(), 0)
             } else {
-                ("false".into(), 0)
+                ("false".to_string(), 0)
             }
         }
-    };
+    }))
+    .unwrap_or_else(|_| ("panic".to_string(), 0));
     tr().ev(json!({"ev":"ret","t":role,"op":op,"r":r.0,"id":r.1}));
     r
 }
